@@ -10,7 +10,7 @@ import yaml
 from vlib import docs, pipeline
 from vlib.common import (SYMBOLIC, install_stubs, note, pick, slice_no, tier)
 from vlib.pipeline import (BASES, MODELS, RETAGS, clone, is_descendant,
-                           outcome_sig, run_load)
+                           outcome_sig, run_load, run_load_all)
 
 install_stubs()
 QUICK = tier() == 'quick'
@@ -28,6 +28,10 @@ ASSUMPTIONS = [a for a in pipeline.PIPELINE_ASSUMPTIONS
     'declared types; two aliases (unretagged) on the small and nested '
     'models of condition alias2; three or more aliases are outside the '
     'bound',
+    'unretagged single-alias documents are also read through the '
+    'multi-document interface (yaml.load_all with the load function\'s '
+    'Loader class, i.e. Loader.get_node; Composer.check_node/get_node are '
+    'stubbed like get_single_node) and must give the same outcome',
     'S3 contract: the composer represents `*a` by the very node object '
     'anchored as `&a` (yaml/composer.py compose_node)',
 ]
@@ -76,7 +80,18 @@ def _alias(sl, i, j, rt, tag):
     if not SYMBOLIC:
         note(model=MODELS[mi][0], base=bi, anchor_node=i, alias_at=j,
              aliased=ra, expanded=re_)
-    return ra == re_, ra
+    if ra != re_:
+        return False, ra
+    if rt == 0:
+        # the same aliased document through the multi-document interface
+        # (yaml.load_all with the function's Loader: Loader.get_node)
+        a2 = _build(mi, bi, i, j, rt, tag, True)
+        rm = outcome_sig(*run_load_all(mi, a2.root))
+        if not SYMBOLIC:
+            note(through_load_all=rm)
+        if rm != re_:
+            return False, ra
+    return True, ra
 
 
 def alias(i: int, j: int, rt: int, tag: str) -> bool:
@@ -177,6 +192,49 @@ def alias2_reach(i: int, j: int, i2: int, j2: int) -> bool:
                 and i2 == 2 and j2 == 3)
 
 
+def _many(n, kind):
+    """One anchored node and n aliases of it, as TEXT: n is concrete per
+    path, so the real scanner, parser and composer run (the composer stub is
+    lifted for this condition -- the number of alias events is only visible
+    there)."""
+    from vlib import common
+    mi = pipeline.MODEL_IDX[pick(['top_list', 'top_any', 'nest_path'], kind)]
+    item = pick(['7', '{k: 7}', '[a/b]'], kind)
+    aliased = '[&a ' + item + ''.join([', *a'] * n) + ']'
+    expanded = '[' + ', '.join([item] * (n + 1)) + ']'
+    load = pipeline.loader_for(mi)
+    stub = yaml.composer.Composer.get_single_node
+    yaml.composer.Composer.get_single_node = common._REAL_COMPOSER_GSN
+    try:
+        out = []
+        for text in (aliased, expanded):
+            try:
+                out.append(outcome_sig('ok', load(text)))
+            except Exception as e:      # noqa
+                out.append(outcome_sig('raise', e))
+    finally:
+        yaml.composer.Composer.get_single_node = stub
+    ra, re_ = out
+    if not SYMBOLIC:
+        note(model=MODELS[mi][0], aliases=n, text=aliased[:80] + ' ...',
+             aliased=str(ra)[:200], expanded=str(re_)[:200])
+    return ra == re_ and ra[0] == 'value'
+
+
+_MANY_Q = list(range(0, 70)) + [100, 128, 200, 256]
+
+
+def many(ni: int, kind: int) -> bool:
+    """
+    pre: 0 <= ni < 74 and 0 <= kind < 3
+    post: __return__
+    """
+    s = slice_no(-1)
+    if s >= 0 and ni % 8 != s:
+        return True
+    return _many(pick(_MANY_Q, ni), kind)
+
+
 def _cycles(m, shape):
     from harness.c08_errors import _CYC_MODELS, _cycle_doc
     mi = pipeline.MODEL_IDX[pick(_CYC_MODELS, m)]
@@ -241,6 +299,10 @@ CONDITIONS = [
               'collections of Path / enum / savorized-class values and '
               '(quick) five small core documents, (thorough) every core '
               'document of 4..11 nodes'},
+    {'fn': 'many', 'slices': list(range(8)), 'quick': 110, 'thorough': 300,
+     'bound': 'one anchored node (an int, a mapping under Any, a list of '
+              'Paths) and n aliases of it in a sequence, n = 0..69, 100, 128, '
+              '200, 256: loads to what the written-out document loads to'},
     {'fn': 'alias2_reach', 'slices': [_slice2_for('nest_path', 0, 1)],
      'quick': 100, 'thorough': 100, 'expect': 'REFUTED',
      'bound': 'reachability twin: [&a [&b x, *b], *a]'},
